@@ -18,6 +18,7 @@ THEOREMS = [_P + n for n in [
     "close_settles_all", "close_spec", "others_get_closed_error", "close_error", "callback_once_after", "close_again",
     "no_write_after_close", "closed_step", "closed_stays_closed", "read_after_close_only_buffered",
     "satisfiable_read_gets_data", "pending_read_at_close",
+    "all_settled_once", "none_pending_after_close", "settled_exactly_once_at_close",
 ]]
 TRUSTED = base.TRUSTED + [
     "asyncio.Future set-once semantics and FIFO call_soon ordering (abstraction: a settle event per future id)",
@@ -33,8 +34,10 @@ RULE = ("op sequences <= 5 over a 12-op alphabet (complete for <= 2 in quick, <=
 EXHAUSTIVE = {"quick": False, "thorough": False}
 CLAUSES = {
     "every pending read, write and connect future is completed exactly once":
-        "close_settles_all + close_spec (each pending id appears once in the events of close) ; tie only: all_settled_once_goal "
-        "(no id settled twice over a whole run; enforced by asyncio.Future, observed per future by the harness)",
+        "close_settles_all + close_spec (each pending id appears once in the events of close) + all_settled_once (no id "
+        "settled twice over ANY run, all op sequences) + none_pending_after_close + settled_exactly_once_at_close (a future "
+        "pending at a close occurs exactly once in the settle log of the whole run, in that close step); the harness also "
+        "counts done-callbacks per future",
     "reads that buffered data can satisfy complete with that data": "satisfiable_read_gets_data + pending_read_at_close (vs Spec.expected)",
     "everything else fails with StreamClosedError carrying the real error": "others_get_closed_error + pending_read_at_close + close_error",
     "the close callback runs exactly once after that": "callback_once_after + close_again",
